@@ -26,10 +26,28 @@ fn model(t: &str, caps: &[Captures<'_>], n: usize, out_for: &mut dyn FnMut(&Capt
 
 fn one(re: &Regex, t: &str, bound: usize) -> Result<(bool, bool), (String, String, String)> {
     let items: Vec<_> = re.captures_iter(t).take(bound).collect();
-    if items.iter().any(|c| c.is_err()) {
-        // a search error must come back as Err / Ok, never as a panic
-        for n in 0..3 {
-            let _ = re.try_replacen(t, n, "<>");
+    if let Some(i_err) = items.iter().position(|c| c.is_err()) {
+        // A search error among the matches that have to be replaced must come back as Err (never
+        // a panic, never silently dropped); an error beyond them may or may not be reached.
+        let before: Vec<Captures<'_>> = items.into_iter().take(i_err).map(|c| c.unwrap()).collect();
+        for n in 0..4usize {
+            let must_err = n == 0 || i_err < n;
+            let must_ok = n >= 1 && i_err > n;
+            let want_ok = model(t, &before, n, &mut |_| "<>".to_string());
+            let results = [
+                ("\"<>\"", re.try_replacen(t, n, "<>").map(|c| c.into_owned())),
+                ("NoExpand(\"<>\")", re.try_replacen(t, n, NoExpand("<>")).map(|c| c.into_owned())),
+                ("closure \"<>\"", re.try_replacen(t, n, |_: &Captures<'_>| "<>").map(|c| c.into_owned())),
+            ];
+            for (name, r) in results {
+                let api = format!("try_replacen({}, {}) with a search error at match #{}", n, name, i_err);
+                match r {
+                    Ok(got) if must_err => return Err((api, "Err: the search error of find_iter / captures_iter".into(), format!("Ok({:?})", got))),
+                    Ok(got) if must_ok && got != want_ok => return Err((api, format!("Ok({:?})", want_ok), format!("Ok({:?})", got))),
+                    Err(e) if must_ok => return Err((api, format!("Ok({:?})", want_ok), format!("Err({})", err_kind(&e)))),
+                    _ => {}
+                }
+            }
             let _ = re.try_replacen(t, n, "$1");
         }
         return Ok((false, true));
